@@ -85,13 +85,15 @@ Definition bRead (disk : bytes) (h : ihandle) (k : Z) : ihandle * bytes :=
   end.
 
 (* utils.go readBufioSize, size > 0: (result, saw EOF) *)
+Definition RCHUNK : Z := 8192.   (* readBufioChunk: readBufioSize never asks for more at once *)
+
 Fixpoint readSize (fuel : nat) (disk : bytes) (h : ihandle) (want : Z) (acc : bytes)
   : option (ihandle * bytes * bool) :=
   if want <=? 0 then Some (h, acc, false) else
   match fuel with
   | O => None
   | S f =>
-    let (h', d) := bRead disk h want in
+    let (h', d) := bRead disk h (Z.min want RCHUNK) in
     match d with
     | [] => Some (h', acc, true)
     | _ => readSize f disk h' (want - len d) (acc ++ d)
@@ -207,12 +209,14 @@ Definition scanNum (disk : bytes) (h : ihandle) : option (ihandle * numres) :=
 Definition iread1 (disk : bytes) (h : ihandle) (f : rfmt) : ihandle * rd1 :=
   match f with
   | FCount n =>
-    if n <? 0 then (h, RdUnsup) else
     if n =? 0 then
       let (h', c) := peekb disk h in
       (h', RdV (match c with None => VNil | Some _ => VStr [] end))
     else
-      match readSize (S (length (rbuf h) + length disk)) disk h n [] with
+      (* a negative count becomes 2^63-1: the loop asks for RCHUNK bytes until the end of the file;
+         any count it cannot reach before that gives the same reads *)
+      let want := if n <? 0 then RCHUNK * (len (rbuf h) + len disk + 1) else n in
+      match readSize (S (length (rbuf h) + length disk)) disk h want [] with
       | None => (h, RdFuel)
       | Some (h', acc, eof) =>
         (h', RdV (match acc with [] => if eof then VNil else VStr [] | _ => VStr acc end))
